@@ -99,6 +99,11 @@ class Engine(EngineBase):
                 # fresh handles (in buffered scenarios also in the middle of a block)
                 ops.append(["restart"])
                 continue
+            if kind == "buffer" and 0.31 <= r < 0.33 and t < ntargets - 1:
+                # the job is removed and used again through the same handle (also inside a block, after its
+                # document was read or written there)
+                ops.append(["remove_reinit", t, h])
+                continue
             if kind == "buffer" and 0.28 <= r < 0.31 and t < ntargets - 1:
                 # the owning job changes its state point (also in the middle of a block, with document
                 # changes still held in the buffer: they must travel with the job)
@@ -797,7 +802,22 @@ class Run:
         self.model[t] = {"after_remove": 1}
         self.probe("remove_reinit")
         self.probe("stale_path")
-        self.check_target(w, t, f"after {op}")
+        if w.depth():
+            self.probe("remove_inside_block")
+            if self.blk is not None:
+                self.block_use(w, t, h, None)
+                self.blk["simple"] = False
+                self.block_coarse()
+                import copy
+                for hh in range(len(w.handles[t])):
+                    self.blk["view"][(t, hh)] = copy.deepcopy(self.model[t])
+            seen = job.doc()
+            if not same(seen, self.model[t]):
+                raise Mismatch("C05", "C05:remove-inside-block:document",
+                               f"world {w.mode}: after {op} inside a buffered block the handle's document shows "
+                               f"{str(seen)[:140]}, expected {self.model[t]}")
+        else:
+            self.check_target(w, t, f"after {op}")
 
     def x_rekey(self, op, w):
         t, h = op[1], op[2]
@@ -812,6 +832,7 @@ class Run:
         if w.depth():
             self.probe("rekey_inside_block")
             if self.blk is not None:
+                self.block_use(w, t, h, None)
                 # fresh handle objects, and the re-key flushes: which collection is flushed first at the end
                 # is no longer tracked exactly
                 self.blk["simple"] = False
